@@ -389,9 +389,10 @@ def cutSegments {α} (z : α) (R C tr tc : Int) (offs : List (Int × Int)) :
       | .ok (rows', frs') => .ok (rows ++ rows', frs ++ frs')
 
 /-- the table a reader reconstructs for a TILED_FULL image from `iter_tiled_full_frame_data`
-(frame index = position in the iteration; channel 0 for label maps) -/
-def tiledFullLut (channels : List (Option Int)) (tr tc R C : Int) : Except ErrKind (List LutRow) :=
-  match iterTiledFull channels 1 tr tc R C ⟨0, 0, 0, 1, 0, 0, 0, 1, 0, 1, 1⟩ 1 with
+(frame index = position in the iteration; channel 0 for label maps).  With more than one focal plane every tile position
+occurs once per plane, which the uniqueness test of a region read then refuses. -/
+def tiledFullLut (channels : List (Option Int)) (planes : Int) (tr tc R C : Int) : Except ErrKind (List LutRow) :=
+  match iterTiledFull channels planes tr tc R C ⟨0, 0, 0, 1, 0, 0, 0, 1, 0, 1, 1⟩ 1 with
   | .error e => .error e
   | .ok l => .ok ((l.zipIdx).map (fun (x : (Option Int × Int × Int × Int × Rat × Rat × Rat) × Nat) =>
       ⟨x.1.2.2.2.1, x.1.2.2.1, x.2, match x.1.1 with | some c => c | none => 0⟩))
@@ -417,7 +418,7 @@ def tileThenRead {α} [BEq α] (z : α) (Ms : List (Int × Img α)) (R C tr tc :
       | .error e => .error e
       | .ok (lutSparse, frames) =>
         let lut : Except ErrKind (List LutRow) :=
-          if full then tiledFullLut (Ms.map (fun m => some m.1)) tr tc R C else .ok lutSparse
+          if full then tiledFullLut (Ms.map (fun m => some m.1)) 1 tr tc R C else .ok lutSparse
         match lut with
         | .error e => .error e
         | .ok lut => readRegion z lut frames R C tr tc (some chan) rs re cs ce asIdx full true
@@ -429,8 +430,11 @@ def pasteStep {α} (z : α) (M : Img α) (R C tr tc : Int) (acc : Except ErrKind
   | .ok out =>
     match getTileArray z M R C o.2 o.1 tr tc with
     | .error e => .error e
-    | .ok t => .ok (fun i j => if o.2 - 1 ≤ i ∧ i < o.2 - 1 + tr ∧ o.1 - 1 ≤ j ∧ j < o.1 - 1 + tc
-                               then t (i - (o.2 - 1)) (j - (o.1 - 1)) else out i j)
+    | .ok t =>
+      -- the padded tile has to be `tr × tc` to be pasted into a `tr × tc` cell (this is where the pad amounts enter)
+      if getTileShape R C o.2 o.1 tr tc ≠ .ok (tr, tc) then .error .value else
+      .ok (fun i j => if o.2 - 1 ≤ i ∧ i < o.2 - 1 + tr ∧ o.1 - 1 ≤ j ∧ j < o.1 - 1 + tc
+                      then t (i - (o.2 - 1)) (j - (o.1 - 1)) else out i j)
 
 /-- cut a matrix into all its tiles and paste them back at their offsets into an array of the padded size -/
 def cutPaste {α} (z : α) (M : Img α) (R C tr tc : Int) : Except ErrKind (Int × Int × Img α) :=
